@@ -94,20 +94,25 @@ def check_cfg(ctx, fx, cfg):
     seen = set()
     for f in tcs:
         crs = timers.creations(fx, f)
-        # the public timer API this coroutine belongs to: the function that creates the future
-        api = crs[0].api["def"].split("::")[-1] if len({c.api["def"] for c in crs}) == 1 else (f.get("parent") or "").split("::")[-1]
-        seen.add(api)
-        inst = "%s@%s" % (api, cfg)
-        if api not in PERIODIC + ONESHOT:
-            ctx.note("timer coroutine in unknown API %s: checked as periodic" % api)
         b = ctx.body(fx, f)
         n = nfa.build(b, A)
-        viols, ps = nfa.check(n, TimerSpec(api not in ONESHOT, api == "delayed_exec"))
-        ctx.count_nfa(n.stats(), ps)
-        for v in viols:
-            ctx.viol("R10.1", inst, v["msg"], fn=f["def"], site=f["loc"], trace=v["trace"])
-        if not viols:
-            ctx.ok("R10.1", inst, f["loc"], {"words": [" ".join(w) for w in nfa.words(n, limit=2)], "nfa": n.stats()})
+        # one body may serve several public APIs, told apart by a constant it captures (`Schedule::Once` / `Repeatedly`):
+        # each (API, constants) instance is followed on its own
+        insts = timers.creation_instances(fx, f) or [(fx.fn(f.get("parent") or "") or f, None, {})]
+        api = None
+        for api_fn, _cr, consts in insts:
+            api = api_fn["def"].split("::")[-1]
+            seen.add(api)
+            inst = "%s@%s" % (api, cfg)
+            if api not in PERIODIC + ONESHOT:
+                ctx.note("timer coroutine in unknown API %s: checked as periodic" % api)
+            init = {"%s#upvar%d" % (b.name, i): v for i, v in consts.items()}
+            viols, ps = nfa.check(n, TimerSpec(api not in ONESHOT, api == "delayed_exec"), init_corr=init or None)
+            ctx.count_nfa(n.stats(), ps)
+            for v in viols:
+                ctx.viol("R10.1", inst, v["msg"], fn=f["def"], site=f["loc"], trace=v["trace"])
+            if not viols:
+                ctx.ok("R10.1", inst, f["loc"], {"words": [" ".join(w) for w in nfa.words(n, limit=2)], "nfa": n.stats(), "bound": consts})
         # the submit's result must be looked at (periodic): is_err/is_ok or a match
         if api in PERIODIC:
             for bi, t in b.normal_calls():
